@@ -245,21 +245,61 @@ class Emitter:
             if r.get("dollar"):
                 s += "$"
             else:
-                s += "/" + self.pr.pattern(r["trail"])
+                t = self.pr.pattern(r["trail"])
+                if self.last_is_ref(r["trail"]):
+                    # known finding K01: a {name} that ends a trailing-context rule is
+                    # expanded without parentheses; keep it out of that position
+                    t = "(" + t + ")"
+                s += "/" + t
         return s
+
+    @staticmethod
+    def last_is_ref(node):
+        while True:
+            k = node[0]
+            if k == "ref":
+                return True
+            if k == "cat" and node[1]:
+                node = node[1][-1]
+            elif k == "alt" and node[1]:
+                return any(Emitter.last_is_ref(c) for c in node[1])
+            else:
+                return False
 
     def spec(self):
         case, o, fl = self.case, self.o, self.fl
         L = []
         body = []      # rules section
-        for i, r in enumerate(case["rules"]):
-            txt = self.rule_text(r)
+
+        def emit_rule(i, own_scs):
+            r = case["rules"][i]
+            r2 = dict(r)
+            r2["scs"] = own_scs
+            txt = self.rule_text(r2)
             if r["act"] == "|":
                 body.append("%s\t|" % txt)
-                continue
+                return
             act = ["\tvf_T(%s, %d, yytext, yyleng, yystart(), %s);" % (C, i + 1, self.ln())]
             act += self.ops_c(r["act"])
             body.append("%s\t{\n%s\n\t}" % (txt, "\n".join(act)))
+
+        def emit_items(items):
+            for it in items:
+                if isinstance(it, int):
+                    emit_rule(it, case["rules"][it].get("scs_own"))
+                else:
+                    _, sclist, sub = it
+                    body.append("%s{" % self.sc_prefix(sclist))
+                    emit_items(sub)
+                    body.append("}")
+
+        if case.get("layout"):
+            # start condition scopes: r["scs"] holds the effective (union) list, the text
+            # shows only the rule's own list inside the scope
+            emit_items(case["layout"])
+        else:
+            for i, r in enumerate(case["rules"]):
+                emit_rule(i, r.get("scs"))
         for e in case.get("eofs", []):
             act = ["\tvf_E(%s, yystart(), %s);" % (C, self.ln())]
             act += self.ops_c(e["act"])
